@@ -1,0 +1,65 @@
+//go:build verif
+
+package home
+
+import (
+	"context"
+	"fmt"
+	"log/slog"
+	"path/filepath"
+	"time"
+
+	"github.com/AdguardTeam/AdGuardHome/internal/client"
+)
+
+// This file is only compiled with the "verif" build tag.  It adds accessors
+// used by the external deterministic-simulation harness (property C04: the
+// persistent clients across a restart) and changes nothing in the shipped
+// build.
+
+// VerifClientsWriteConfig writes the configuration file into workDir with the
+// real [configuration.write], the persistent clients being those of st (as
+// [clientsContainer.forConfig] collects them).
+func VerifClientsWriteConfig(workDir string, st *client.Storage) (err error) {
+	globalContext.workDir = workDir
+	globalContext.confFilePath = filepath.Join(workDir, "AdGuardHome.yaml")
+
+	prev := globalContext.clients.storage
+	globalContext.clients.storage = st
+	defer func() { globalContext.clients.storage = prev }()
+
+	return config.write(nil)
+}
+
+// VerifClientsReloadFromConfig reads the configuration file of the working
+// directory set by [VerifClientsWriteConfig] with the real parseConfig and
+// converts its persistent clients the way [clientsContainer.Init] does at
+// start.  What it returns comes from the file only.
+func VerifClientsReloadFromConfig(
+	ctx context.Context,
+	baseLogger *slog.Logger,
+) (clients []*client.Persistent, err error) {
+	config.fileData = nil
+	config.Clients.Persistent = nil
+
+	err = parseConfig()
+	if err != nil {
+		return nil, fmt.Errorf("parsing config: %w", err)
+	}
+
+	cacheSize := config.Filtering.SafeSearchCacheSize
+	cacheTTL := time.Minute * time.Duration(config.Filtering.CacheTime)
+
+	clients = make([]*client.Persistent, 0, len(config.Clients.Persistent))
+	for i, o := range config.Clients.Persistent {
+		var p *client.Persistent
+		p, err = o.toPersistent(ctx, baseLogger, cacheSize, cacheTTL)
+		if err != nil {
+			return nil, fmt.Errorf("init persistent client at index %d: %w", i, err)
+		}
+
+		clients = append(clients, p)
+	}
+
+	return clients, nil
+}
